@@ -199,10 +199,14 @@ unsafe fn stub_move_unchecked(_b: &Board, _mv: ChessMove) -> Board {
     let mut parts = b.verif_parts();
     parts.zobrist = CHILD_TAG;
     b = Board::verif_from_raw(*b.raw(), parts);
-    unsafe { CHILD_IN_CHECK = b.in_check() };
+    unsafe {
+        CHILD_IN_CHECK = b.in_check();
+        CHILD_BOARD = Some(b);
+    }
     b
 }
 static mut CHILD_IN_CHECK: bool = false;
+static mut CHILD_BOARD: Option<Board> = None;
 fn stub_eval(_e: &mut Engine, _b: &Board, _d: u16) -> Score {
     Score::Raw(kani::any())
 }
@@ -523,8 +527,13 @@ fn unit_level(white_policy: bool) {
             assert!(s != mate_now);
         }
     } else {
-        // the list was never asked for: only the insufficient-material draw returns that early
+        // the list was never asked for: only the insufficient-material draw (after a capture)
+        // may return before the terminal test - in particular the fifty-move and repetition
+        // draws must come AFTER it, or a mating move would be scored as a draw
         assert!(s == Score::Raw(0));
+        let was_capture = parent.raw().get(mv.dest).is_some();
+        let cb = unsafe { CHILD_BOARD }.unwrap();
+        assert!(was_capture && engine.verif_insufficient_material(&cb));
     }
     kani::cover!(s == mate_now);
     kani::cover!(s == Score::Raw(0) && child.is_none());
